@@ -46,6 +46,10 @@ func init() {
 		Doc: "between one diff step and the next, every link cell read by the link callback (added, removed) that is non-nil is handed to the " +
 			"callback (or the diff stops/fails): the delivery of one side does not depend on the other side's cell being nil.",
 		Run: runDELIVERALL})
+	Register(&Rule{ID: "ENTRYKEY", Props: []string{"C06"}, Min: 3,
+		Doc: "wherever the diff step records an entry's value for the entry callback (the added / removed value cell), the key cell is set on the " +
+			"same path from the key of the same popped item: no entry is reported without, or under another item's, key.",
+		Run: runENTRYKEY})
 	Register(&Rule{ID: "KEYEQ", Props: []string{"C06"}, Min: 1,
 		Doc: "in the diff, reflect.DeepEqual decides only whether the two sides' values differ: its operands are the old and the new Value, never a " +
 			"key or a whole entry (key equality is the comparator's business).",
@@ -1986,6 +1990,7 @@ func runNOTIFY(c *Ctx) {
 	if step := c.MustFunc("(*Mast).diffOne"); step != nil {
 		notifyConsumed(c, S, step, notified)
 		notifyNoReset(c, S, step, notified, report)
+		notifyRecords(c, S, notified, report)
 	}
 }
 
@@ -3331,4 +3336,242 @@ func runKEYEQ(c *Ctx) {
 	if n == 0 {
 		c.Undecided(nil, "-", "no value comparison", "the diff never compares an old with a new value by reflect.DeepEqual: the rule cannot find the `changed` decision")
 	}
+}
+
+// notifyRecords: where alreadyNotified(…, L) answered false (not notified
+// yet — and L is memoised from now on), L is stored into the link cell of
+// that side before the function returns; otherwise the node is never reported.
+func notifyRecords(c *Ctx, S *sidesInfo, notified *ssa.Function, report map[*sdSlot]side) {
+	P := c.P
+	for _, fn := range S.fns {
+		if fn == notified {
+			continue
+		}
+		for _, ci := range CallsOf(fn) {
+			call, ok := ci.(*ssa.Call)
+			if !ok || ir.Callee(ci.Common()) != notified {
+				continue
+			}
+			args := call.Call.Args
+			link := args[len(args)-1]
+			want := S.sideOf(link)
+			pos := P.InstrPos(call)
+			what := fmt.Sprintf("%s(%s) answered false in %s", notified.Name(), sdDesc(link), ir.FuncName(fn))
+			// stores that record this link
+			recBlocks := map[*ssa.BasicBlock]bool{}
+			for _, b := range fn.Blocks {
+				for _, ins := range b.Instrs {
+					st, isSt := ins.(*ssa.Store)
+					if !isSt || !S.sameLink(st.Val, link) {
+						continue
+					}
+					if sl, _ := S.storeRoot(st.Addr); sl != nil {
+						if w, isRep := report[sl]; isRep && (!want.single() || w == want) {
+							recBlocks[b] = true
+						}
+						continue
+					}
+					// through a pointer parameter bound to a link cell at every call site
+					if p, isP := st.Addr.(*ssa.Parameter); isP {
+						idx, all, n := sdParamIndex(fn, p), true, 0
+						for _, cs := range P.Callers[fn] {
+							if !S.slice[cs.Parent()] || idx < 0 || idx >= len(cs.Common().Args) {
+								continue
+							}
+							n++
+							sl := S.slotRef(cs.Common().Args[idx])
+							if _, isRep := report[sl]; sl == nil || !isRep {
+								all = false
+							}
+						}
+						if all && n > 0 {
+							recBlocks[b] = true
+						}
+					}
+				}
+			}
+			ifs, other := sdCondIfs(call)
+			if len(ifs) == 0 {
+				if other && sdOnlyReturned(call) {
+					c.Undecided(fn, pos, "answer of "+notified.Name()+" handed on", "the answer is returned to the caller; the rule expects the recording next to the question")
+				} else {
+					c.Violation(fn, pos, "answer of "+notified.Name()+" not used",
+						fmt.Sprintf("%s is asked about %s (which memoises the link) but its answer does not decide anything: the link is never recorded for the link callback", notified.Name(), sdDesc(link)))
+				}
+				continue
+			}
+			bad := false
+			for _, i := range ifs {
+				start := i.OnFalse
+				if recBlocks[start] {
+					continue
+				}
+				reach := ir.ReachableFrom(start, func(_, to *ssa.BasicBlock) bool { return recBlocks[to] })
+				for _, r := range ir.Returns(fn) {
+					if reach[r.Block()] {
+						bad = true
+					}
+				}
+			}
+			if bad {
+				c.Violation(fn, pos, "link not recorded although "+notified.Name()+" answered false",
+					fmt.Sprintf("after %s answered false for %s (not notified yet; the link is memoised by that very call) %s can return without storing the link into the %s link cell: the node is never handed to the link callback, now or later", notified.Name(), sdDesc(link), fn.Name(), want))
+			} else {
+				c.OK(pos, what, "the link is stored into the link cell of its side on every path to a return", false)
+			}
+		}
+	}
+}
+
+// ---- ENTRYKEY ---------------------------------------------------------------------
+
+func runENTRYKEY(c *Ctx) {
+	S := sidesReady(c)
+	if S == nil {
+		return
+	}
+	P := c.P
+	step := c.MustFunc("(*Mast).diffOne")
+	if step == nil {
+		return
+	}
+	// the cells read by the entry callback: value cells and the key cell
+	valueCells := map[*sdSlot]bool{}
+	var keyCell *sdSlot
+	for _, fn := range S.fns {
+		for _, ci := range CallsOf(fn) {
+			if S.callbackKind(ci) != "entry" {
+				continue
+			}
+			args := ci.Common().Args
+			for i := 0; i < S.entrySig.Params().Len() && i < len(args); i++ {
+				sl := S.slotRef(args[i])
+				if sl == nil {
+					continue
+				}
+				if _, seeded := S.entrySeed[i]; seeded && !S.entryFlag[i] {
+					valueCells[sl] = true
+				} else if S.entrySig.Params().At(i).Name() == "key" {
+					keyCell = sl
+				}
+			}
+		}
+	}
+	if keyCell == nil || len(valueCells) == 0 {
+		c.Undecided(nil, "-", "entry cells not found", "the entry callback is not fed from a key cell and value cells of the diff state")
+		return
+	}
+	inStep := c.Facts.Reach(step)
+	type est struct {
+		st   *ssa.Store
+		item ssa.Value
+	}
+	for _, fn := range S.fns {
+		if !inStep[fn] {
+			continue
+		}
+		var keys, vals []est
+		for _, b := range fn.Blocks {
+			for _, ins := range b.Instrs {
+				st, ok := ins.(*ssa.Store)
+				if !ok {
+					continue
+				}
+				if _, isC := st.Val.(*ssa.Const); isC {
+					continue
+				}
+				sl, _ := S.storeRoot(st.Addr)
+				switch {
+				case sl == keyCell && sl != nil:
+					if sdPathHasField(st.Val, "Key") {
+						keys = append(keys, est{st, sdAccessRoot(st.Val)})
+					}
+				case sl != nil && valueCells[sl]:
+					vals = append(vals, est{st, sdAccessRoot(st.Val)})
+				}
+			}
+		}
+		// K accompanies S: same block, K before S on every path, or K on
+		// every path from S to a return
+		accompanies := func(k, s *ssa.Store) bool {
+			if k.Block() == s.Block() || ir.Before(k, s) {
+				return true
+			}
+			reach := ir.ReachableFrom(s.Block(), func(_, to *ssa.BasicBlock) bool { return to == k.Block() })
+			for _, r := range ir.Returns(fn) {
+				if reach[r.Block()] {
+					return false
+				}
+			}
+			return true
+		}
+		for _, v := range vals {
+			pos := P.InstrPos(v.st)
+			sl, _ := S.storeRoot(v.st.Addr)
+			what := fmt.Sprintf("%s = %s in %s", sl.name, sdDesc(v.st.Val), ir.FuncName(fn))
+			ok, wrongItem := false, false
+			for _, k := range keys {
+				if !accompanies(k.st, v.st) {
+					continue
+				}
+				if k.item == v.item {
+					ok = true
+					break
+				}
+				// the key of the other item is fine where that item's value is recorded too
+				both := false
+				for _, v2 := range vals {
+					if v2.st.Block() == v.st.Block() && v2.item == k.item {
+						both = true
+					}
+				}
+				if both {
+					ok = true
+					break
+				}
+				wrongItem = true
+			}
+			switch {
+			case ok:
+				c.OK(pos, what, "the key cell is set from the same item on this path", false)
+			case wrongItem:
+				c.Violation(fn, pos, "value recorded ("+sl.field.Name()+") under another item's key",
+					fmt.Sprintf("%s records the value of %s, but the key cell is set from a different item on this path: the entry is reported under the wrong key", fn.Name(), sdDesc(v.st.Val)))
+			default:
+				c.Violation(fn, pos, "value recorded ("+sl.field.Name()+") without the key",
+					fmt.Sprintf("%s records %s for the entry callback, but %s is not set from that item's key on this path: the step reports nothing (the drivers test the key cell) or an entry without its key — the difference is lost", fn.Name(), sdDesc(v.st.Val), keyCell.name))
+			}
+		}
+	}
+}
+
+// sdPathHasField: the access path of v goes through a field of that name.
+func sdPathHasField(v ssa.Value, name string) bool {
+	for i := 0; i < 16; i++ {
+		v = ir.ResolveCell(ir.Strip(v))
+		switch x := v.(type) {
+		case *ssa.UnOp:
+			if x.Op != token.MUL {
+				return false
+			}
+			v = x.X
+		case *ssa.FieldAddr:
+			if ir.FieldName(x.X.Type(), x.Field) == name {
+				return true
+			}
+			v = x.X
+		case *ssa.Field:
+			if ir.FieldName(x.X.Type(), x.Field) == name {
+				return true
+			}
+			v = x.X
+		case *ssa.IndexAddr:
+			v = x.X
+		case *ssa.Index:
+			v = x.X
+		default:
+			return false
+		}
+	}
+	return false
 }
